@@ -14,7 +14,7 @@ RULE = ("cases: every operator class (nestings to depth 2, batch shapes) x publi
         "operations on rectangular operators; operator @ operator with an inner-dimension mismatch (same class, dense, unbatched, single-block "
         "and block-dimension-as-batch operands of block operators). Only inputs that torch REJECTS for the densified operator are judged (the reference call is "
         "executed, not assumed). oracle: the library raises (at the call or, for lazy results, at evaluation); a returned value is a "
-        "no-raise violation. debug setting on (thorough: also off, reported separately). distinct key = (root class, operation, badness)")
+        "no-raise violation. debug setting on (thorough: also off - the documented opt-out from the safety checks - where acceptances are counted, not judged). distinct key = (root class, operation, badness)")
 ASSUMPTIONS = ["torch's own accept / reject verdict on the dense operand is the specification", "a lazy result that raises on to_dense() counts as raising"]
 REQUIRED_STATS = ("judged",)
 
@@ -205,6 +205,10 @@ def run_case(case, ctx):
             if late is not None:
                 ctx.stat("raised_only_at_evaluation")
                 ctx.ok(op, key + "|late", True)
+                continue
+            if not case["debug"]:
+                # settings.debug(False) is the documented opt-out from the library's safety checks: what is accepted there is counted, not judged
+                ctx.stat("accepted_with_debug_off(not judged):" + op)
                 continue
             shape = tuple(res.shape) if hasattr(res, "shape") else type(res).__name__
             # is the silent acceptance specific to this class?  same call on a dense operator of the same value
